@@ -76,7 +76,16 @@ def _wide_class(n):
     return type(Serializable)("C13Wide%d" % n, (Serializable,), ns)
 
 
-WIDE_CLASSES = dict((n, _wide_class(n)) for n in (126, 127, 128, 129, 200, 255, 256, 257, 300))
+WIDE_CLASSES = {}
+
+
+def wide_classes():
+    """registered on first use only: C14 shares this module's registry, and merely constructing an instance of a 300-field
+    class costs ~2000 calls whatever the input is, which is no business of C14's per-input-byte work bound"""
+    if not WIDE_CLASSES:
+        for n in (126, 127, 128, 129, 200, 255, 256, 257, 300):
+            WIDE_CLASSES[n] = _wide_class(n)
+    return WIDE_CLASSES
 
 
 INTS = [0, 1, -1, 127, -127, 128, -128, 129, -129, 32767, -32767, 32768, -32768, 32769, -32769,
@@ -128,7 +137,7 @@ def enum_clash(a, b):
         return True
 
 
-def gen_values(tier):
+def gen_values(tier, wide=True):
     """yield (value, shape-label) simplest first; finite and fully enumerated"""
     for v in SCALARS:
         yield v, "scalar"
@@ -156,7 +165,7 @@ def gen_values(tier):
         yield {"p": b, "q": a}, "look-alike"
         yield C13Three(a=b, b=a, c=[a, b]), "look-alike"
     # classes with many fields: the field count crosses the 1-byte / 2-byte integer encodings
-    for n, cls in WIDE_CLASSES.items():
+    for n, cls in (wide_classes() if wide else {}).items():
         last = "f%03d" % (n - 1)
         yield cls(), "wide-class %d fields" % n
         yield cls(**{"f000": -500, last: "end"}), "wide-class %d fields" % n
